@@ -702,6 +702,25 @@ class Executor:
         else:
             raise Untranslatable("aggregate field " + repr(v))
 
+    def put_enum_const(self, st, key, c):
+        """constant of a std enum, possibly nested (`Result::<..>::Ok(Option::<..>::None)`): discriminants and scalar payloads;
+        payload constants outside the translator are left unconstrained"""
+        c = c.strip()
+        if re.match(r"^(?:[\w:]*::)?Option::<.*>::None$", c):
+            st.store[key + "#discr"] = Val(bvconst(0, 64), ("bv", 64, True))
+            return
+        mm = re.match(r"^(?:[\w:]*::)?(Result|Option|ControlFlow)::<.*?>::(\w+)\(", c)
+        if mm and c.endswith(")"):
+            table = KNOWN_ENUMS[mm.group(1)]
+            st.store[key + "#discr"] = Val(bvconst(table.index(mm.group(2)), 64), ("bv", 64, True))
+            for i, part in enumerate(split_top(c[mm.end():-1])):
+                self.put_enum_const(st, key + "@%s.%d" % (mm.group(2), i), part)
+            return
+        try:
+            self.put_at(st, key, self.const_val(c))
+        except Untranslatable:
+            pass
+
     def assign(self, st, fn, dst_text, rhs, frame):
         dst = self.parse_place(st, fn, dst_text, frame)
         dty = self.type_of_place(fn, dst, frame)
@@ -818,9 +837,8 @@ class Executor:
                     return
                 mm = re.match(r"^(?:[\w:]*::)?(Result|Option|ControlFlow)::<.*?>::(\w+)\(", c)
                 if mm:
-                    table = KNOWN_ENUMS[mm.group(1)]
                     self.clear_prefix(st, dst.key())
-                    st.store[dst.key() + "#discr"] = Val(bvconst(table.index(mm.group(2)), 64), ("bv", 64, True))
+                    self.put_enum_const(st, dst.key(), c)
                     return
                 if c == "()":
                     return
